@@ -100,7 +100,7 @@ def main():
     hook_commits = [l.split(' ', 1)[0] for l in commits if not l.split(' ', 1)[1].startswith('fix:')]
     man = {
         'version': 1,
-        'setup_cmd': './build.sh asan && ./build.sh asan vcli && ./build.sh tsan',
+        'setup_cmd': './build.sh asan && ./build.sh asan vcli && ./build.sh tsan && ./build.sh plain',
         'hooks': {
             'guard': 'SQFVM_RUNTIME_VERIF',
             'enable': 'harness/CMakeLists.txt compiles /repo/src/** (minus src/cli, src/sqc, src/unused) with -DSQFVM_RUNTIME_VERIF into the vh harness (flavours asan, tsan under .build/)',
